@@ -152,6 +152,18 @@ CLAIMED = {
             "(jiff documents that surplus fields are ignored), a 12-hour clock without AM/PM, %s followed by other "
             "field-setting directives. Known finding D28 (%A cannot parse \"Tuesday\") is listed in KNOWN_FINDINGS.txt.",
             "TLA+ strftime/strptime/RFC 2822 spec evaluated by TLC over implementation traces", "DESIGN.md §5 C16"),
+    "C05": ("model_checking",
+            "The specification of a fallible operation is Result = Ok(v) with v inside the type's documented range, or Err; "
+            "never a panic; independent of the build mode. Ranges.tla states every range (from Calendar/Instant/CivilArith); "
+            "Trace_Fallible.tla checks each observed call, made with identical limit-biased arguments under a build with "
+            "debug assertions and overflow checks and one without, for: no panic in either, same status, same value, value "
+            "in range. The call list covers every fallible (and saturating / wrapping) public operation of Date, Time, "
+            "DateTime, Timestamp, Zoned, Span, SignedDuration, Offset, ISOWeekDate and the zone conversions, crossed with "
+            "pools built from every type's MIN, MAX, +-1 around them, zero and sign changes.",
+            "Trusted: TLC, the projection, cargo profiles. Sampling: products of pools are thinned 1:2 in the quick tier; "
+            "the thorough tier runs every product with enlarged span pools. Which value an Ok result must have is decided "
+            "by the other properties' checks (C06-C13).",
+            "TLA+ range/totality spec evaluated by TLC over paired traces of two builds", "DESIGN.md §5 C05"),
     "C17": ("exploration",
             "Totality cannot be exhausted; it is explored. Mutate.tla specifies the mutation language of the property's "
             "quantifier (14 grammar-aware operators x position x variant); TLC enumerates all 504 one-step plans and samples "
